@@ -32,6 +32,7 @@ BUDGET = {'quick': 60, 'thorough': 700}
 WALLCAP = {'quick': 500, 'thorough': 2700}
 
 F_LOCKED = 'C16-locked-pool-stream'
+F_PSVINOT = 'X-psvi-with-pool-xsmodel-crash'     # not a C16 defect: crashes on the ORIGINAL pool (PSVI handler + XSModel created by the pool before the parse + attribute of a user-defined simple type)
 
 def parse_resp(text):
     r = {'load': [], 'inst': {}, 'model': {}, 'lines': {}}
@@ -51,7 +52,7 @@ def parse_resp(text):
 
 def request_of(case):
     req = {'kind': 'pool', 'ng': str(len(case['grammars'])), 'ni': str(len(case['instances'])), 'lock': str(case['lock']), 'lockser': str(case.get('lockser', 0)),
-           'api': case.get('api', 'dom'), 'feat': case['feat'], 'stampdelta': str(case.get('stampdelta', 1))}
+           'api': case.get('api', 'dom'), 'feat': case['feat'], 'stampdelta': str(case.get('stampdelta', 1)), 'psvifirst': str(case.get('psvifirst', 0))}
     for i, g in enumerate(case['grammars']):
         req['g%d.type' % i] = g['type']; req['g%d.sysid' % i] = g['sysid']; req['g%d.text' % i] = g['text'].encode('utf-8')
         for k, v in g.get('files', {}).items(): req['ent:' + k] = v.encode('utf-8')
@@ -141,8 +142,8 @@ def case_strategy(draw):
 
 def build_case(grammars, instances, lock, lockser, api):
     gs = [dict(type=g['type'], sysid=g['sysid'], text=g['text'], files=g['files'], kinds=sorted(g['kinds'])) for g in grammars]
-    feat = 'ns=1;schema=1;val=1;usecached=1;fullcheck=1;ic=1' + (';psvi=1' if api == 'dom' else '')
-    return {'grammars': gs, 'instances': instances, 'lock': lock, 'lockser': lockser, 'api': api, 'feat': feat}
+    feat = 'ns=1;schema=1;val=1;usecached=1;fullcheck=1;ic=1'
+    return {'grammars': gs, 'instances': instances, 'lock': lock, 'lockser': lockser, 'api': api, 'feat': feat, 'psvifirst': 0}
 
 def run_case(case, ex):
     try:
@@ -159,6 +160,8 @@ def worker(ctx):
         if lockser:
             st_.excluded_known[F_LOCKED] += 1; lockser = 0
         case = build_case(grammars, instances, lock, lockser, api)
+        if api == 'dom':
+            st_.excluded_known[F_PSVINOT] += 1      # PSVI (DOM type info) is not requested at all: see F_PSVINOT
         ok, detail, info = run_case(case, ex)
         labels = set(info.get('labels', ()))
         if 'grammar-load-error' in labels:
